@@ -237,9 +237,9 @@ class Dep5NestStream(Stream):
 #: names with a comment style for text (several styles), with the uncommentable style, with none, and with an extension that
 #: binaryornot lists as binary
 TEXT_NAMES = ["x.ts", "x.el", "x.po", "x.m", "x.d", "x.pro", "x.py", "x.c", "x.html", "x.tex", "x.f90", "x.ml", "x.bat", "x.j2", "x.css",
-              "x.md", "x.rst", "x.txt", "x.TS", "Makefile", "Dockerfile", ".gitignore", "CMakeLists.txt", "x.min.js", "x.tar.py"]
+              "x.md", "x.rst", "x.TS", "Makefile", "Dockerfile", ".gitignore", "CMakeLists.txt", "x.min.js", "x.tar.py"]
 UNCOMMENTABLE_NAMES = ["x.json", "x.svg", "x.csv", "x.ipynb"]
-NO_STYLE_NAMES = ["x.unknownext", "noextension", "x.dat"]
+NO_STYLE_NAMES = ["x.unknownext", "noextension", "x.dat", "x.txt"]
 BINARY_NAMES = ["x.png", "x.PNG", "x.bin", "x.jpg", "x.gz", "x.exe", "x.pdf", "archive.tar.gz"]
 EMBED = [b"Copyright 2009 Acme Encoder Works", b"SPDX-FileCopyrightText: 2011 Embedded Holder <e@example.com>", b"\xc2\xa9 2010 Foo GmbH",
          b"SPDX-License-Identifier: GPL-2.0-only", b"SPDX-License-Identifier: MIT AND", b"Copyright (C) 1999 Some Vendor, Inc.",
@@ -337,8 +337,8 @@ class SniffStream(Stream):
             "`reuse lint --json`: 10 binary shapes (NULs, random bytes, control bytes, control and high bytes, PNG with a tEXt chunk, ELF, MPEG transport "
             "stream packets, gzip with a file name, JPEG with a comment segment, binary head with the strings after the sniffed "
             "part) holding 1-4 of 8 copyright / licence / contributor strings on lines of their own within the first 4 KiB — each "
-            "generated body is kept only if binaryornot calls it binary — under 25 names with a text comment style (x.ts x.el "
-            "x.po x.m x.d x.pro … Makefile, .gitignore), 4 uncommentable, 3 without style; tagged text under 8 names binaryornot "
+            "generated body is kept only if binaryornot calls it binary — under 24 names with a text comment style (x.ts x.el "
+            "x.po x.m x.d x.pro … Makefile, .gitignore), 4 uncommentable, 4 without style; tagged text under 8 names binaryornot "
             "lists as binary (x.png x.PNG x.bin …) and under text names; x every chain of REUSE.toml levels of depth 1 (17 "
             "shapes) and random chains of depth 2-3, .license sibling {absent x4, empty, copyright, licence, both}; oracle: "
             "binary (binaryornot on name + first 512 bytes) and no sibling => nothing has the file as its source, the rest "
